@@ -1,0 +1,81 @@
+//go:build verif
+
+// Contracts for the API codecs (comment-only; build tag verif).
+
+package ketoapi
+
+// A message as it comes from the wire (assumption T8): a oneof wrapper that is present
+// wraps a non-nil pointer and, for subject sets, a non-nil set.
+//@ spec wfwiresubject(s *rts.Subject) bool = s != nil ==> (istype(s.Ref, *rts.Subject_Set) ==> as(s.Ref, *rts.Subject_Set) != nil && as(s.Ref, *rts.Subject_Set).Set != nil) && (istype(s.Ref, *rts.Subject_Id) ==> as(s.Ref, *rts.Subject_Id) != nil)
+
+// exactly one subject (what Validate() establishes on the server paths)
+//@ spec onesubject(r *RelationTuple) bool = r != nil && ((r.SubjectID != nil && r.SubjectSet == nil) || (r.SubjectID == nil && r.SubjectSet != nil))
+
+//@ func TupleData.GetSubject
+//@   trusted
+//@   pure
+//@   ensures wfwiresubject(result)
+//@ func TupleData.GetObject
+//@   trusted
+//@   pure
+//@ func TupleData.GetNamespace
+//@   trusted
+//@   pure
+//@ func TupleData.GetRelation
+//@   trusted
+//@   pure
+
+//@ func (*RelationTuple).FromDataProvider
+//@   props C13 C18 C08
+//@   requires r != nil && d != nil
+//@   modifies r.Namespace, r.Object, r.Relation, r.SubjectID, r.SubjectSet
+//@   ensures result1 == nil ==> result0 == r
+//@   ensures[C13] nil-subject-is-an-error: result1 == nil ==> (r.SubjectID != nil || r.SubjectSet != nil)
+
+//@ func (*RelationTuple).FromProto
+//@   props C13 C18 C08
+//@   requires[C13] proto-present: proto != nil
+//@   requires[C13] subject-present: proto.Subject != nil && wfwiresubject(proto.Subject)
+//@   modifies nothing
+//@   ensures result != nil && fresh(result)
+
+//@ func (*RelationQuery).FromURLQuery
+//@   props C13 C18 C08
+//@   requires query != nil
+//@   modifies q.all
+//@   ensures result1 == nil ==> result0 != nil && !(result0.SubjectID != nil && result0.SubjectSet != nil)
+//@   ensures result1 == nil && q != nil ==> result0 == q
+
+//@ func (*RelationTuple).FromURLQuery
+//@   props C13 C18 C08
+//@   requires r != nil && query != nil
+//@   modifies r.Namespace, r.Object, r.Relation, r.SubjectID, r.SubjectSet
+//@   ensures result1 == nil ==> result0 == r && onesubject(r)
+
+// ---- C18 round trips: harnesses in verif_harness.go, proved over the real bodies
+//@ spec sameset(a *SubjectSet, b *SubjectSet) bool = (a == nil && b == nil) || (a != nil && b != nil && a.Namespace == b.Namespace && a.Object == b.Object && a.Relation == b.Relation)
+//@ spec sameid(a *string, b *string) bool = (a == nil && b == nil) || (a != nil && b != nil && *a == *b)
+
+//@ func verifRoundTripURLTuple
+//@   props C18
+//@   opt inline-all
+//@   requires onesubject(x)
+//@   ensures[C18] url-tuple-roundtrip: result1 == nil && result0 != nil && result0.Namespace == x.Namespace && result0.Object == x.Object && result0.Relation == x.Relation && sameid(result0.SubjectID, x.SubjectID) && sameset(result0.SubjectSet, x.SubjectSet)
+
+//@ func verifRoundTripURLQuery
+//@   props C18
+//@   opt inline-all
+//@   requires x != nil && !(x.SubjectID != nil && x.SubjectSet != nil)
+//@   ensures[C18] url-query-roundtrip: result1 == nil && result0 != nil && sameid(result0.Namespace, x.Namespace) && sameid(result0.Object, x.Object) && sameid(result0.Relation, x.Relation) && sameid(result0.SubjectID, x.SubjectID) && sameset(result0.SubjectSet, x.SubjectSet)
+
+//@ func verifRoundTripProtoTuple
+//@   props C18
+//@   opt inline-all
+//@   requires onesubject(x)
+//@   ensures[C18] proto-tuple-roundtrip: result != nil && result.Namespace == x.Namespace && result.Object == x.Object && result.Relation == x.Relation && sameid(result.SubjectID, x.SubjectID) && sameset(result.SubjectSet, x.SubjectSet)
+
+//@ func verifRoundTripDataProviderTuple
+//@   props C18
+//@   opt inline-all
+//@   requires onesubject(x)
+//@   ensures[C18] dataprovider-roundtrip: result1 == nil && result0 != nil && result0.Namespace == x.Namespace && result0.Object == x.Object && result0.Relation == x.Relation && sameid(result0.SubjectID, x.SubjectID) && sameset(result0.SubjectSet, x.SubjectSet)
